@@ -702,6 +702,10 @@ func (peer *peer) handleUpdate(e *fsmMsg) ([]*table.Path, []bgp.Family, bool) {
 
 				if hasOwnASLoop(localAS, allowOwnAS, aspath, confedID, confedEnabled) {
 					path.SetRejected(true)
+					// The route still replaces what the peer announced before
+					// for this destination (implicit withdraw): an older,
+					// usable version must leave the Loc-RIB.
+					paths = append(paths, path.Clone(true))
 					continue
 				}
 			}
@@ -719,6 +723,7 @@ func (peer *peer) handleUpdate(e *fsmMsg) ([]*table.Path, []bgp.Family, bool) {
 						slog.String("Data", path.String()))
 
 					path.SetRejected(true)
+					paths = append(paths, path.Clone(true))
 					continue
 				}
 			}
